@@ -194,7 +194,7 @@ def handler_sites(mod):
     """(fn, call inst, description) for every call of a policy error handler in library code."""
     S = sym.Sym(mod)
     for f in mod.funcs.values():
-        if not f.body or "yorel::yomm2" not in f.dname:
+        if not f.body or not irq.is_lib_name(f.dname):
             continue
         for i in f.all_insts():
             if i.op not in ("call", "invoke"):
@@ -257,7 +257,7 @@ def check(run):
                 bad = []
                 for dn in fs:
                     for f in mod.by_dname.get(dn, []):
-                        if "yorel::yomm2" not in f.dname or not f.body:
+                        if not irq.is_lib_name(f.dname) or not f.body:
                             continue
                         for i in f.all_insts():
                             if i.op == "landingpad" and (i.get("clauses", 0) > 0):
